@@ -2,6 +2,7 @@
 import argparse, collections, concurrent.futures, fcntl, hashlib, json, os, re, resource, shutil
 import signal, subprocess, sys, time
 import tbmc_replay
+import cbmc_playback
 
 ROOT = os.path.dirname(os.path.dirname(os.path.abspath(__file__)))
 HARNESS = os.path.join(ROOT, "harness")
@@ -627,7 +628,23 @@ def main(argv):
 
     def replay_job(item):
         res, cl, todo = item
-        tests, plog = playback_tests(res, logdir)
+        if res["job"].family == "TBMC":
+            # Kani's own concrete playback needs tens of GB for these traces: read the values off CBMC's compact
+            # text trace instead (driver/cbmc_playback.py); same unit test, same native execution afterwards
+            job = res["job"]
+            tests, plog = [], os.path.join(logdir, f"{job.mod}-{job.fn}.cbmc-trace.log")
+            fd = os.open(os.path.join(res["slot"], ".slot.lock"), os.O_CREAT | os.O_RDWR)
+            fcntl.flock(fd, fcntl.LOCK_EX)
+            try:
+                for chk in todo:
+                    code, name = cbmc_playback.extract(res["slot"], job, res["log"], chk.get("description", ""), plog)
+                    if code:
+                        tests.append({"harness": job.full, "code": code, "name": name,
+                                      "check": chk.get("description", "").strip('"')})
+            finally:
+                release_slot(fd)
+        else:
+            tests, plog = playback_tests(res, logdir)
         out = []
         for chk in todo:
             rdir, info = make_replay(prop, res, chk, tests, plog)
